@@ -5,6 +5,8 @@ use crate::symbol_path::{GenericSymbolPath, GenericSymbolPathNamespace, SymbolPa
 use crate::symbol_table;
 use crate::{HashMap, HashSet};
 use bimap::BiMap;
+use daggy::petgraph::Direction;
+use daggy::petgraph::graph::DiGraph;
 use daggy::petgraph::visit::Dfs;
 use daggy::{Dag, NodeIndex, Walker, petgraph::algo};
 use serde::{Deserialize, Serialize};
@@ -53,7 +55,9 @@ pub struct TypeDag {
     candidates: Vec<TypeDagCandidate>,
     errors: Vec<DagError>,
     dag_owned: HashMap<u32, HashSet<u32>>,
-    file_dag: Dag<(), (), u32>,
+    /// File-level reference graph. Unlike `dag` it may hold cycles: two files can
+    /// use each other's packages while their symbols stay acyclic.
+    file_dag: DiGraph<(), (), u32>,
     file_nodes: BiMap<PathId, u32>,
 }
 
@@ -113,7 +117,7 @@ impl TypeDag {
             candidates: Vec::new(),
             errors: Vec::new(),
             dag_owned: HashMap::default(),
-            file_dag: Dag::new(),
+            file_dag: DiGraph::default(),
             file_nodes: BiMap::new(),
         }
     }
@@ -455,9 +459,9 @@ impl TypeDag {
                 let start: NodeIndex = (*start).into();
                 let end: NodeIndex = (*end).into();
                 if start != end && self.file_dag.find_edge(start, end).is_none() {
-                    let err = self.file_dag.add_edge(start, end, ());
-                    // cyclic error should be caught by dag
-                    err.unwrap();
+                    // Cyclic symbol references are caught by `dag`; files may still
+                    // reference each other, so this graph must admit cycles.
+                    self.file_dag.add_edge(start, end, ());
                 }
             }
         }
@@ -513,7 +517,7 @@ impl TypeDag {
 
     fn dependent_files(&self) -> HashMap<PathId, Vec<PathId>> {
         let mut ret = HashMap::default();
-        let graph = self.file_dag.graph().clone();
+        let graph = self.file_dag.clone();
 
         for node in self.file_nodes.right_values() {
             let mut dependents = Vec::new();
@@ -595,15 +599,21 @@ impl TypeDag {
     }
 
     fn dump_file(&self) -> String {
-        let nodes = algo::toposort(self.file_dag.graph(), None).unwrap();
+        // Files referencing each other have no topological order: fall back to
+        // creation order.
+        let nodes = algo::toposort(&self.file_dag, None)
+            .unwrap_or_else(|_| self.file_dag.node_indices().collect());
         let mut ret = "".to_string();
 
         for node in &nodes {
             let idx = node.index() as u32;
             if let Some(path) = self.file_nodes.get_by_right(&idx) {
                 ret.push_str(&format!("{path}\n"));
-                for parent in self.file_dag.parents(*node).iter(&self.file_dag) {
-                    let idx = parent.1.index() as u32;
+                for parent in self
+                    .file_dag
+                    .neighbors_directed(*node, Direction::Incoming)
+                {
+                    let idx = parent.index() as u32;
                     if let Some(path) = self.file_nodes.get_by_right(&idx) {
                         ret.push_str(&format!(" |- {path}\n"));
                     }
